@@ -554,6 +554,11 @@ func (w *Proxy) checkC17TryTimeout(r *peers.ReqRec) {
 		}
 		return
 	}
+	if len(r.Upstream) < n && p.MaxRetries > 0 && p.NConns == 1 && p.ReqsPerConn == 1 {
+		// the only request of the run never holds more than one unit of the retries resource
+		s.Violate("C10", "limit_trips_below_threshold:retries", "req#%d is the only request of the run (max_retries=%d, num_retries=%d, per-try timeout %v, every upstream silent): %d attempt(s) reached upstreams instead of %d — the retries limit tripped although the request never held more than one unit", r.Idx, p.MaxRetries, p.NumRetries, try, len(r.Upstream), n)
+		return
+	}
 	if len(r.Upstream) < n {
 		s.Violate("C17", "per_try_timeout_not_applied", "req#%d: retry_on with num_retries=%d and a per-try timeout of %v (global timeout: route %dms), every upstream silent: %d attempt(s) reached upstreams instead of %d; the reply came %v after the request was sent", r.Idx, p.NumRetries, try, p.GlobalMs, len(r.Upstream), n, r.Replies[0].At-r.SentAt)
 		return
